@@ -1,6 +1,13 @@
 //! Monitors: one module per property. A check for property X runs only X's monitors.
 
 pub mod c01;
+pub mod c04;
+pub mod c12;
+pub mod c14;
+pub mod c16;
+pub mod c17;
+pub mod c20;
+pub mod util;
 
 use crate::gen::{profile_farm, profile_full, profile_pool, Profile};
 use crate::sim::Monitor;
@@ -13,6 +20,12 @@ pub const ALL: &[&str] = &[
 pub fn monitors_for(prop: &str) -> Vec<Box<dyn Monitor>> {
     match prop {
         "C01" => vec![Box::new(c01::C01::default())],
+        "C04" => vec![Box::new(c04::C04)],
+        "C12" => vec![Box::new(c12::C12)],
+        "C14" => vec![Box::new(c14::C14::default())],
+        "C16" => vec![Box::new(c16::C16::default())],
+        "C17" => vec![Box::new(c17::C17::default())],
+        "C20" => vec![Box::new(c20::C20::default())],
         _ => vec![],
     }
 }
